@@ -450,3 +450,8 @@ def nontrivial(line):
 
 def known_class(finding, line):
     return False
+
+
+def extra_evidence(lines):
+    """Branch coverage measured inside the real crate by the cfg(recmo_uint_verif) counters."""
+    return {"hook_counters": C.hook_counters(BIN, lines)}
